@@ -745,6 +745,34 @@ def r11_7(chk, so):
             prefix_ok[k_] = prefix_ok.get(k_, True) and good
             dens = [t_ for t_ in find_atoms(T, lambda t_: t_[0] == "call" and call_name(t_) == ".limit_denominator" and t_[2])]
             twelfths[k_] = bool(dens) and all(d_[2][0].const_value() is not None and d_[2][0].const_value() >= 12 for d_ in dens)
+    # the same encoder written per row with a sign table:  for j in flatnonzero(R[i, :]): v += SIGNS[i, j] + "xyz"[j]   with
+    # SIGNS = where(R < 0, "-", "+")  - the non-zero test is the loop's source, letter and sign are looked up with the same (i, j)
+    vec_rows = set()
+    if not letters:
+        for e in ev.events:
+            if e.kind != "assign" or e.value is None or not e.loops or e.loops[-1].kind != "iter" or e.loops[-1].iter is None:
+                continue
+            it_a = e.loops[-1].iter.as_atom()
+            if not (it_a and call_name(it_a) == "numpy.flatnonzero" and len(it_a[2]) == 1):
+                continue
+            src = it_a[2][0].as_atom()
+            if not (src and src[0] == "sub" and src[2] and src[2][0].const_value() is not None and
+                    (len(src[2]) == 1 or src[2][1].key().startswith("(slice None None None)"))):
+                continue
+            i_ = int(src[2][0].const_value())
+            R_ = src[1]
+            if rot0 not in R_.key():
+                continue
+            J = P.atom(("sub", e.loops[-1].iter, (e.loops[-1].index,)))
+            letter = P.atom(("sub", P.atom(("str", "xyz")), (J,)))
+            sign_tab = P.atom(("call", P.name("numpy.where"), (P.atom(("lt", R_, P.const(0))), P.atom(("str", "-")), P.atom(("str", "+")))))
+            sign = P.atom(("sub", sign_tab, (P.const(i_), J)))
+            tops_ = {P.atom(a).key() for a in e.value.atoms()}
+            if letter.key() in tops_ and sign.key() in tops_:
+                vec_rows.add(i_)
+    if vec_rows == {0, 1, 2}:
+        letters = {(i, j): {"xyz"[j]} for i in range(3) for j in range(3)}
+        signs_ok = {k: True for k in letters}
     okletters = len(letters) == 9 and all(v == {"xyz"[j]} for (i, j), v in letters.items())
     chk.ob("R11.7", SO, "encode_symm_str", "axis symbols are 'xyz' in column order and signs are '+'/'-'",
            okletters and {"+", "-", ","} <= lits,
